@@ -38,6 +38,18 @@ def _sync(repo):
                     repo.rstrip("/") + "/", SRC + "/"], check=True)
 
 
+def parse_desugars(path):
+    """//@desugar <relpath> :: <impl seg> :: fn <name> :: <rule> :: <newname>"""
+    out = []
+    with open(path) as f:
+        for ln in f.read().split("\n"):
+            m = re.match(r"\s*//@desugar\s+(\S+)\s*::\s*(.*)$", ln)
+            if m:
+                parts = [x.strip() for x in m.group(2).split("::")]
+                out.append((m.group(1), parts[:-2], parts[-2], parts[-1]))
+    return out
+
+
 def parse_harness_file(path):
     """-> (injections: {relpath: text}, attrs: [(relpath, [segs], text)])"""
     inj, attrs = {}, []
@@ -81,7 +93,21 @@ def inject(units):
     """apply injections of all units to SRC.  Raises LostAnchor."""
     per_file_attr = {}
     per_file_inj = {}
+    import extract as _ex
     for name, u in units:
+        # translation validation: a desugared copy (rule applied by the same code the Verus assembler uses) next to the real fn
+        for rel, segs, rule, newname in parse_desugars(os.path.join(ROOT, u["file"])):
+            p = os.path.join(SRC, rel)
+            if not os.path.exists(p):
+                raise LostAnchor("file %s not found" % rel)
+            with open(p) as f:
+                src = f.read()
+            item, _t = find_item(src, segs)
+            impl_item, _t2 = find_item(src, segs[:-1])
+            text = _ex.RULES[rule](src[item.start:item.end])
+            text = re.sub(r"\bfn\s+%s\b" % re.escape(segs[-1].split()[-1]), "fn " + newname, text, count=1)
+            hdr = src[impl_item.start:impl_item.body_open]
+            per_file_inj[rel] = per_file_inj.get(rel, "") + "\n#[cfg(kani)]\n%s{\n%s\n}\n" % (hdr, text)
         inj, attrs = parse_harness_file(os.path.join(ROOT, u["file"]))
         for rel, text in inj.items():
             per_file_inj[rel] = per_file_inj.get(rel, "") + text
